@@ -2617,9 +2617,11 @@ void Analyser::AnalyserImpl::analyseModel(const ModelPtr &model)
             if (owningModel(variable) != model) {
                 auto issue = Issue::IssueImpl::create();
 
-                issue->mPimpl->setDescription("Variable '" + variable->name()
-                                              + "' in component '" + owningComponent(variable)->name()
-                                              + "' is marked as an external variable, but it belongs to a different model and will therefore be ignored.");
+                auto variableComponent = owningComponent(variable);
+
+                issue->mPimpl->setDescription("Variable '" + variable->name() + "'"
+                                              + ((variableComponent != nullptr) ? " in component '" + variableComponent->name() + "'" : "")
+                                              + " is marked as an external variable, but it belongs to a different model and will therefore be ignored.");
                 issue->mPimpl->setLevel(Issue::Level::MESSAGE);
                 issue->mPimpl->setReferenceRule(Issue::ReferenceRule::ANALYSER_EXTERNAL_VARIABLE_DIFFERENT_MODEL);
                 issue->mPimpl->mItem->mPimpl->setVariable(variable);
@@ -3473,6 +3475,10 @@ void Analyser::analyseModel(const ModelPtr &model)
 
 bool Analyser::addExternalVariable(const AnalyserExternalVariablePtr &externalVariable)
 {
+    if ((externalVariable == nullptr) || (externalVariable->variable() == nullptr)) {
+        return false;
+    }
+
     if (std::find(pFunc()->mExternalVariables.begin(), pFunc()->mExternalVariables.end(), externalVariable) == pFunc()->mExternalVariables.end()) {
         pFunc()->mExternalVariables.push_back(externalVariable);
 
